@@ -272,14 +272,154 @@ partial def runAll : P Unit := do
     runAll
   | l => throw s!"unexpected top-level line {l}"
 
-def main : IO UInt32 := do
+
+/-! ### certificate mode: print a history as Lean definitions with one `decide`-checked equation per step
+    (`poamodel --lean Name < history.ops > PoaVerif/Witness/Name.lean`) -/
+
+def lInt (i : Int) : String := if i < 0 then s!"({i})" else toString i
+def lBool (b : Bool) : String := if b then "true" else "false"
+def lList (xs : List String) : String := "[" ++ ", ".intercalate xs ++ "]"
+def lOptNat (o : Option Nat) : String := match o with | some n => s!"(some {n})" | none => "none"
+def lOptInt (o : Option Int) : String := match o with | some n => s!"(some {lInt n})" | none => "none"
+def lStatus : Status → String
+  | .unbonded => "Status.unbonded" | .unbonding => "Status.unbonding" | .bonded => "Status.bonded"
+def lVal (v : Val) : String :=
+  s!"⟨{v.op}, {v.key}, {lBool v.jailed}, {lStatus v.status}, {v.tokens}, {lInt v.shares}, {lInt v.ubTime}, {lInt v.ubHeight}, {lInt v.minSelf}⟩"
+def lPairNI (p : Nat × Int) : String := s!"({p.1}, {lInt p.2})"
+def lPairNN (p : Nat × Nat) : String := s!"({p.1}, {p.2})"
+def lInfo (i : SignInfo) : String := s!"⟨{lInt i.start}, {lInt i.idx}, {lInt i.missed}, {lInt i.jailedUntil}, {lBool i.tomb}⟩"
+def lPending (p : Pending) : String := s!"⟨{p.op}, {p.key}, {p.tokens}, {lInt p.minSelf}, {lList (p.info.map lInt)}⟩"
+def lApp (s : App) : String :=
+  "{ vals := " ++ lList (s.vals.map lVal) ++ ",\n    dels := " ++ lList (s.dels.map lPairNI) ++ ", last := " ++ lList (s.last.map lPairNI) ++
+  s!", lastTotal := {lInt s.lastTotal},\n    index := " ++ lList (s.index.map lPairNN) ++
+  ", ubq := " ++ lList (s.ubq.map (fun ((t, h), ops) => s!"(({lInt t}, {lInt h}), {lList (ops.map toString)})")) ++
+  ", cons := " ++ lList (s.cons.map lPairNN) ++
+  s!",\n    params := ⟨{lInt s.params.unbond}, {s.params.maxVals}, {s.params.maxEntries}, {s.params.hist}, {s.params.denom}, {lInt s.params.minComm}⟩" ++
+  s!", bonded := {lInt s.bonded}, notBonded := {lInt s.notBonded}, supply := {lInt s.supply},\n    infos := " ++
+  lList (s.infos.map (fun (k, i) => s!"({k}, {lInfo i})")) ++ ", bitmap := " ++ lList (s.bitmap.map (fun (k, l) => s!"({k}, {lList (l.map toString)})")) ++
+  s!",\n    window := {lInt s.window}, minSigned := {lInt s.minSigned}, jailNs := {lInt s.jailNs}, slashDown := {lInt s.slashDown},\n    pending := " ++
+  lList (s.pending.map lPending) ++ ", updated := " ++ lList (s.updated.map toString) ++
+  s!", cached := {s.cached}, absCh := {s.absCh}, height := {lInt s.height}, time := {lInt s.time} }"
+
+def lSigner : Signer → String
+  | .admin => "Signer.admin" | .user => "Signer.user" | .op n => s!"(Signer.op {n})"
+
+partial def lMsg : Msg → String
+  | .setPower t p u => s!"Msg.setPower {lOptNat t} {p} {lBool u}"
+  | .remove t => s!"Msg.remove {lOptNat t}"
+  | .rmPending t => s!"Msg.rmPending {lOptNat t}"
+  | .create c => s!"Msg.create ⟨{c.op}, {lOptNat c.key}, {lList (c.lens.map toString)}, {lInt c.rate}, {lInt c.maxRate}, {lInt c.maxChange}, {lInt c.minSelf}⟩"
+  | .params p => s!"Msg.params ⟨{lInt p.unbond}, {lInt p.maxVals}, {lInt p.maxEntries}, {lInt p.hist}, {p.denom}, {lInt p.minComm}⟩"
+  | .unjail op => s!"Msg.unjail {op}"
+  | .edit op r => s!"Msg.edit {op} {lOptInt r}"
+  | .staking k => s!"Msg.staking {k}"
+  | .withdraw => "Msg.withdraw"
+  | .other => "Msg.other"
+  | .exec ms => s!"Msg.exec {lList (ms.map lMsg)}"
+  | .groupProp ms => s!"Msg.groupProp {lList (ms.map lMsg)}"
+  | .govProp ms => s!"Msg.govProp {lList (ms.map lMsg)}"
+
+def lBlock (b : Block) : String :=
+  s!"⟨{lInt b.dt}, " ++ lList (b.votes.map (fun v => s!"⟨{v.key}, {lInt v.power}, {lBool v.absent}⟩")) ++ ", " ++
+  lList (b.txs.map (fun t => s!"⟨{lSigner t.signer}, {t.seqOff}, {lList (t.msgs.map lMsg)}⟩")) ++ "⟩"
+
+def lErr (e : Err) : String :=
+  let sp := match e.space with
+    | .poa => "Space.poa" | .sdk => "Space.sdk" | .staking => "Space.staking" | .slashing => "Space.slashing" | .undefined => "Space.undefined"
+  s!"⟨{sp}, {e.code}⟩"
+def lTxR : TxR → String
+  | .ok => "TxR.ok" | .err e => s!"TxR.err {lErr e}" | .unknown => "TxR.unknown"
+def lOut (o : BlockOut) : String := s!"⟨{lList (o.txrs.map lTxR)}, {lList (o.updates.map lPairNI)}⟩"
+def lCometErr : CometErr → String
+  | .duplicate => "CometErr.duplicate" | .negative => "CometErr.negative" | .powerTooBig => "CometErr.powerTooBig"
+  | .absentRemoval => "CometErr.absentRemoval" | .empty => "CometErr.empty" | .totalTooBig => "CometErr.totalTooBig"
+
+partial def skipToEnd : P Unit := do
+  match ← nextLine with
+  | ["END"] => pure ()
+  | [] => pure ()
+  | _ => skipToEnd
+
+partial def certBlocks (name : String) (i : Nat) (s : App) (set : CSet) (acc : List String) : P (List String × String × Nat × Nat) := do
+  match ← nextLine with
+  | ["END"] => pure (acc, "RunEnd.done", i - 1, i - 1)
+  | ["RESTART"] => certBlocks name i s set acc
+  | ["BLOCK", dt, nv, nt] =>
+    let b ← pBlock dt nv nt
+    let acc := acc ++ [s!"def b{i} : Block := {lBlock b}"]
+    match App.block theEnv s b with
+    | .error hk =>
+      let hs := match hk with | .panic => "Halt.panic" | .error => "Halt.error"
+      let acc := acc ++ [s!"theorem step{i} : App.block genEnv s{i-1} b{i} = .error {hs} := by decide"]
+      -- consume the rest
+      skipToEnd
+      pure (acc, s!"RunEnd.halted {hs}", i - 1, i)
+    | .ok (bo, s') =>
+      let acc := acc ++ [s!"def o{i} : BlockOut := {lOut bo}", s!"def s{i} : App :=\n  {lApp s'}",
+        s!"theorem step{i} : App.block genEnv s{i-1} b{i} = .ok (o{i}, s{i}) := by decide"]
+      match Comet.applyChangeSet set bo.updates with
+      | .error ce =>
+        let acc := acc ++ [s!"theorem comet{i} : Comet.applyChangeSet c{i-1} o{i}.updates = .error {lCometErr ce} := by decide"]
+        skipToEnd
+        pure (acc, s!"RunEnd.rejected {lCometErr ce}", i - 1, i)
+      | .ok set' =>
+        let acc := acc ++ [s!"def c{i} : CSet := {lList (set'.map lPairNI)}",
+          s!"theorem comet{i} : Comet.applyChangeSet c{i-1} o{i}.updates = .ok c{i} := by decide"]
+        certBlocks name (i+1) s' set' acc
+  | l => throw s!"unexpected line {l}"
+
+def certMain (name : String) : P Unit := do
+  match ← nextLine with
+  | ["GENESIS", mv, ub, w, ms, jn, sd, mc, n] =>
+    let cnt ← pNat n
+    let mut vals : List GVal := []
+    for _ in [0:cnt] do
+      match ← nextLine with
+      | ["GVAL", op, key, tok] => vals := vals ++ [{ op := ← pNat op, key := ← pNat key, tokens := ← pNat tok }]
+      | l => throw s!"expected GVAL got {l}"
+    let g : Genesis := { maxVals := ← pNat mv, unbond := ← pInt ub, window := ← pInt w, minSigned := ← pInt ms,
+                         jailNs := ← pInt jn, slashDown := ← pInt sd, minComm := ← pInt mc, vals := vals }
+    out "import PoaVerif.Model.Chain\nimport PoaVerif.Facts"
+    out s!"/- GENERATED by `poamodel --lean {name}` from corpus/{name}.ops: the history as Lean terms and one kernel-checked\n   (`decide`) equation per step.  Regenerate with tools/mkwitness.sh after changing the model. -/"
+    out s!"namespace PoaVerif.Witness.{name}\nopen PoaVerif\n"
+    out (s!"def g : Genesis :=\n  ⟨{g.maxVals}, {lInt g.unbond}, {lInt g.window}, {lInt g.minSigned}, {lInt g.jailNs}, {lInt g.slashDown}, {lInt g.minComm}, " ++
+      lList (g.vals.map (fun v => s!"⟨{v.op}, {v.key}, {v.tokens}⟩")) ++ "⟩")
+    match App.initChain g with
+    | .error _ => throw "genesis fails"
+    | .ok (ups, s) =>
+      match Comet.applyChangeSet [] ups with
+      | .error _ => throw "genesis update list rejected"
+      | .ok set =>
+        out s!"def u0 : List (Nat × Int) := {lList (ups.map lPairNI)}"
+        out s!"def s0 : App :=\n  {lApp s}"
+        out s!"def c0 : CSet := {lList (set.map lPairNI)}"
+        out "theorem init : App.initChain g = .ok (u0, s0) := by decide"
+        out "theorem comet0 : Comet.applyChangeSet [] u0 = .ok c0 := by decide"
+        let (lines, fin, nOk, nBlocks) ← certBlocks name 1 s set []
+        for l in lines do out l
+        out s!"\n/-- how the history ends -/\ndef ending : RunEnd := {fin}"
+        let bl := (List.range nBlocks).map (fun k => s!"b{k+1}")
+        out s!"def blocks : List Block := {lList bl}"
+        let steps := (List.range nOk).map (fun k => s!"⟨o{k+1}, s{k+1}, c{k+1}⟩")
+        out s!"def steps : List Step := {lList steps}"
+        let lemmas := (List.range nBlocks).map (fun k => s!"step{k+1}") ++ (List.range nOk).map (fun k => s!"comet{k+1}") ++
+          (if nOk < nBlocks ∧ fin.startsWith "RunEnd.rejected" then [s!"comet{nBlocks}"] else [])
+        out ("/-- the model's run of the whole history -/\ntheorem run_eq : run genEnv g blocks = some (⟨⟨[], u0⟩, s0, c0⟩, steps, ending) := by\n  simp only [run, init, comet0, blocks, steps, ending, runFrom, " ++
+          ", ".intercalate lemmas ++ "]")
+        out s!"\nend PoaVerif.Witness.{name}"
+  | l => throw s!"expected GENESIS got {l}"
+
+def main (args : List String) : IO UInt32 := do
   let stdin ← IO.getStdin
   let mut lines : Array String := #[]
   repeat
     let l ← stdin.getLine
     if l.isEmpty then break
     lines := lines.push l
-  match ← (runAll.run { lines := lines, pos := 0 }).run with
+  let prog : P Unit := match args with
+    | ["--lean", name] => certMain name
+    | _ => runAll
+  match ← (prog.run { lines := lines, pos := 0 }).run with
   | .ok _ => return 0
   | .error e =>
     IO.eprintln s!"driver error: {e}"
